@@ -2,6 +2,7 @@ package rules
 
 import (
 	"fmt"
+	"sort"
 	"strings"
 
 	"golang.org/x/tools/go/ssa"
@@ -43,18 +44,35 @@ func c18SharedObject(c *Ctx) {
 		}
 		loops := effects.Loops(fn)
 		for li, L := range loops {
-			// does the loop start goroutines?
-			var gos []*ssa.Go
+			// does the loop start goroutines — directly, or through a helper that does
+			// (serveConn(conn): wg.Add(1); go s.handleConnection(conn))?
+			var gos []ssa.Instruction
+			viaHelper := map[ssa.Instruction]bool{}
 			for b := range L.Blocks {
 				for _, in := range b.Instrs {
-					if g, ok := in.(*ssa.Go); ok {
-						gos = append(gos, g)
+					switch x := in.(type) {
+					case *ssa.Go:
+						gos = append(gos, x)
+					case *ssa.Call:
+						h := x.Call.StaticCallee()
+						if h == nil || h.Blocks == nil || !p.InModule(h) || h == fn {
+							continue
+						}
+						for _, hb := range h.Blocks {
+							for _, hin := range hb.Instrs {
+								if _, ok := hin.(*ssa.Go); ok && !viaHelper[x] {
+									viaHelper[x] = true
+									gos = append(gos, x)
+								}
+							}
+						}
 					}
 				}
 			}
 			if len(gos) == 0 {
 				continue
 			}
+			sort.Slice(gos, func(i, j int) bool { return gos[i].Pos() < gos[j].Pos() })
 			nLoops++
 			construct := fmt.Sprintf("%s: loop #%d starting goroutines", p.FuncName(fn), li+1)
 			pos := p.Rel(gos[0].Pos())
@@ -90,11 +108,14 @@ func c18SharedObject(c *Ctx) {
 			for root, sites := range written {
 				_, evs := al.Run(fn, []ssa.Value{root})
 				for _, e := range evs {
-					if e.Kind != effects.EvGo {
+					if e.Instr == nil || !L.Blocks[e.Instr.Block()] {
 						continue
 					}
-					if e.Instr != nil && L.Blocks[e.Instr.Block()] {
+					switch {
+					case e.Kind == effects.EvGo:
 						bad = append(bad, fmt.Sprintf("object %s (written at %s) reaches the go statement at %s", root.Name(), strings.Join(sites, ","), p.Rel(e.Instr.Pos())))
+					case e.Kind == effects.EvEscape && viaHelper[e.Instr]:
+						bad = append(bad, fmt.Sprintf("object %s (written at %s) reaches the goroutine started by the helper called at %s (%s)", root.Name(), strings.Join(sites, ","), p.Rel(e.Instr.Pos()), e.What))
 					}
 				}
 			}
